@@ -146,7 +146,8 @@ def run_cell(cfg, cx):
                 return True, "batch missing"
             gotb = np.asarray(r[j][i][kp])
             order = pv if cfg["key"] == "perm" else list(range(L))
-            exp = np.stack([np.asarray(blocks[j][kp])[order[i * B + q]] for q in range(B)], axis=0).reshape((nd, B // nd) + gotb.shape[2:])
+            src = np.asarray(blocks[j][kp])
+            exp = np.stack([src[order[i * B + q]] for q in range(B)], axis=0).reshape((nd, B // nd) + src.shape[1:])
             return cx.deviates(gotb, exp, rtol=1e-6)
         return replay
 
